@@ -1033,9 +1033,9 @@ def run(ctx):
     cases += directed(rng)
     tl = tail_loss_case(rng)
     cases.append(tl)
-    for _ in range(ctx.n(32, 200)):
+    for _ in range(ctx.n(28, 200)):
         cases.append(gen_random(rng, big=ctx.thorough()))
-    for _ in range(ctx.n(12, 70)):
+    for _ in range(ctx.n(10, 70)):
         cases.append(gen_soak(rng, big=ctx.thorough()))
     results = []
     kept = []
